@@ -1,12 +1,11 @@
 /-
-C16 — model of `utype.utils.base.TypeRegistry` (register / resolve), utils/base.py:11-128 (utype 7b3aeda: the
+C16 — model of `utype.utils.base.TypeRegistry` (register / resolve), utils/base.py:11-128 (utype ea05768: the
 registry list is published as a whole under `self._lock` and counted in `self._generation`).
 
 Hand-written, branch for branch.  Tied to the code twice:
-* T1 (lean/Utv/GenEq/C16.lean): the inner `decorator` of `register` (base.py:81-94) and `resolve` (base.py:101-128)
-  are regenerated from the source text on every run and proved equal to `register` / `resolve` below; the detector
-  closure (base.py:66-79 = `detClosure`) and the argument checks of the outer `register` (base.py:50-64 =
-  `registerOuter`) are NOT regenerated yet (requested; see design.d/C16.md) — they are tied by T2 only;
+* T1 (lean/Utv/GenEq/C16.lean): `register` — the outer call base.py:50-64 (`registerOuter`), the detector closure
+  base.py:66-79 (`detClosure`), the inner `decorator` base.py:81-94 (`register`) — and `resolve` (base.py:101-128) are
+  regenerated from the source text on every run and proved equal to the functions below;
 * T2 (harness/c16.py): the same histories of public calls are run on a real `TypeRegistry` (fresh, with a live base
   registry, and the library's own transformer / encoder registries through `utype.register_transformer` /
   `utype.register_encoder`) and on `runCalls` / `run2` below; every answer is compared.
@@ -242,6 +241,35 @@ def run2 (W Wb : World) : Reg → Reg → List Op2 → List (Option Nat)
     let (base', o) := resolve Wb base t
     o :: run2 W Wb own base' ops
 
+/-! ### Consumers declared during the history
+
+A Schema / dataclass field, an item type of a generic (`List[T]`, `Dict[str, T]`, `Tuple[T, …]`), the return annotation
+of a `@property` or of a parsed function, a function parameter: each converts values to a class `t` whenever it is
+used.  Declaring one looks the converter up (field.py:588,604, rule.py:1262,1309: for the warnings; this fills the
+lookup cache) — and, after `fixes/C16-declared-types-late-registration`, remembers nothing: every use is a lookup made
+at that moment (`TypeTransformer.__call__`, transform.py:737-748; rule.py `_arg_transformer`).  `legacy = true` is
+the code before that fix for item types and Rule origins: the converter found at declaration, if any, is used forever
+(rule.py `__arg_transformers__`, `__origin_transformer__`). -/
+
+inductive OpD where
+  | reg (e : Entry)
+  | res (t : Nat)
+  | decl (t : Nat)        -- declare a consumer of class `t` (its number = how many were declared before)
+  | use (k : Nat)         -- convert through the k-th declared consumer
+  deriving Repr
+
+def runD (legacy : Bool) (W : World) : Reg → List (Nat × Option Nat) → List OpD → List (Option Nat)
+  | _, _, [] => []
+  | r, ds, .reg e :: ops => runD legacy W (register r e) ds ops
+  | r, ds, .res t :: ops => (resolve W r t).2 :: runD legacy W (resolve W r t).1 ds ops
+  | r, ds, .decl t :: ops => runD legacy W (resolve W r t).1 (ds ++ [(t, (resolve W r t).2)]) ops
+  | r, ds, .use k :: ops =>
+    match ds[k]? with
+    | none => none :: runD legacy W r ds ops
+    | some (t, bound) =>
+      if legacy && bound.isSome then bound :: runD legacy W r ds ops
+      else (resolve W r t).2 :: runD legacy W (resolve W r t).1 ds ops
+
 /-! ### Specification: a function of the registration history only -/
 
 /-- Chronological fold: a later matching registration replaces the current best when its
@@ -266,6 +294,16 @@ def specRun (W : World) : List Entry → List Op → List (Option Nat)
   | _, [] => []
   | regs, .reg e :: ops => specRun W (regs ++ [e]) ops
   | regs, .res t :: ops => specResolve W regs t :: specRun W regs ops
+
+/-- with declared consumers: a use answers what the registrations made so far select for the consumer's class —
+when the consumer was declared plays no part -/
+def specRunD (W : World) : List Entry → List Nat → List OpD → List (Option Nat)
+  | _, _, [] => []
+  | regs, ds, .reg e :: ops => specRunD W (regs ++ [e]) ds ops
+  | regs, ds, .res t :: ops => specResolve W regs t :: specRunD W regs ds ops
+  | regs, ds, .decl t :: ops => specRunD W regs (ds ++ [t]) ops
+  | regs, ds, .use k :: ops =>
+    (match ds[k]? with | none => none | some t => specResolve W regs t) :: specRunD W regs ds ops
 
 /-- with a live base: the own registry's fallback is what the base's own registrations so far select -/
 def specRun2 (W Wb : World) : List Entry → List Entry → List Op2 → List (Option Nat)
